@@ -19,8 +19,11 @@ package transport
 //@   ghostset #lastChunk = ite(err == nil, n, 0)
 //@   ghostset #readFailed = (err != nil)
 //@   ghostset #cur = old(#cur) + ite(err == nil, n, 0)
-//@   ensures err == nil ==> n == len(p) && n >= 0 && fresh(p)
+// (one read delivers less than 2^39 bytes: keeps buffer sizes inside the modelled range of slice lengths)
+//@   ensures err == nil ==> n == len(p) && n >= 0 && n <= 0x8000000000 && fresh(p)
 //@   ensures err == nil ==> matches(p, #stream, old(#cur))
+// a tunnel carries fewer than 2^60 bytes (keeps stream positions away from the 64-bit wrap-around)
+//@   ensures #cur <= 0x1000000000000000
 
 //@ iface transport.Transport.Close() (err)
 //@   ghostset closed(self) = true
